@@ -567,7 +567,7 @@ LIST_POOL = G.OBJ_POOL + [["none"], ["nan"], ["str", ""], ["str", "true"], ["str
                           ["str", "2020-01-01 10:00:00"], ["str", "127.0.0.1"], ["str", "http://a.b/c"], ["str", "/a/b"],
                           ["str", "a@b.c"], ["str", "POINT (1 2)"], ["str", "0b8a22ca-80ad-4df5-85ac-fa49c44b7ede"],
                           ["str", "1+2j"], ["str", "05"], ["float", 2.0], ["float", 3.0], ["complex", 2, 0], ["int", 5],
-                          ["nparr"], ["pdser"]]
+                          ["nparr"], ["pdser"], ["NaT"], ["dt", "2020-01-01T00:00:00"], ["dt", "2021-03-04T00:00:00"]]
 
 
 def _gv(r):
@@ -612,7 +612,8 @@ def gen(rng, backend):
         pool = rng.choice([[["str", "nan"], ["str", "1.5"], ["str", "2"]], [["str", "1"], ["str", "a"], ["str", "2.5"]],
                            [["str", "a"], ["int", 1], ["bytes", "ab"]], [["int", 1], ["str", "a"], ["float", 1.5]],
                            [["float", 1.0], ["float", 2.5], ["nan"]], [["str", "NaN"], ["str", "3"], ["str", "x"]],
-                           [["str", "true"], ["str", "no"], ["str", "1"]], [["bool", True], ["int", 2], ["none"]]])
+                           [["str", "true"], ["str", "no"], ["str", "1"]], [["bool", True], ["int", 2], ["none"]],
+                           [["str", "a"], ["list"], ["tuple"]], [["str", "b"], ["nparr"], ["list"]], [["str", "yes"], ["str", "maybe"], ["str", "no"]]])
         n = rng.randint(6, 12)
         vals = [pool[0]] * n
         for _ in range(rng.choice([1, 2])):
@@ -795,6 +796,8 @@ def run_backend(tier, seed, backend, n=None, nproc=16):
                        {"values": [["str", "a"], ["str", "b"]], "container": "tuple", "stream": "corpus:fixed-F38"},
                        {"values": [["int", 1], ["int", 2], ["int", 3]], "container": "tuple", "stream": "corpus:int-tuple"}, {"values": [["none"], ["none"]], "stream": "corpus:all-none2"},
                        {"values": [["int", 1], ["none"]], "stream": "corpus:int-none"},
+                       {"values": [["dt", "2020-01-01T00:00:00"], ["NaT"]], "stream": "corpus:fixed-F48"},
+                       {"values": [["NaT"], ["NaT"]], "stream": "corpus:all-NaT"},
                        {"values": [["float", 0.0], ["float", 0.0], ["float", 0.0]], "stream": "corpus:fixed-F34"},
                        {"values": [["int", 0], ["int", 0]], "stream": "corpus:fixed-F34b"},
                        {"values": [["dt", "2020-01-01T10:00:00"]], "stream": "corpus:fixed-F35"},
